@@ -30,7 +30,7 @@ def op_runs(job):
     eng = engine_for(job['prop'])
     eng.setup(job)
     agg = {'counters': {}, 'digests': [], 'keys': [], 'violations': [], 'samples': [],
-           'harness_errors': [], 'ticks': 0, 'runs': 0, 'nontrivial': 0}
+           'harness_errors': [], 'ticks': 0, 'runs': 0, 'nontrivial': 0, 'buckets': {}}
     lo, hi = job['range']
     for i in range(lo, hi):
         st = rng.Streams(rng.derive(job['seed'], job['prop'], i))
@@ -45,6 +45,10 @@ def op_runs(job):
         for k, v in res['counters'].items():
             agg['counters'][k] = agg['counters'].get(k, 0) + v
         agg['digests'].append(res['digest'])
+        for bk, bv in (res.get('buckets') or {}).items():
+            agg['buckets'].setdefault(bk, [])
+            if bv not in agg['buckets'][bk]:
+                agg['buckets'][bk].append(bv)
         if res['nontrivial']:
             agg['nontrivial'] += 1
             agg['keys'].append(res['key'])
@@ -103,6 +107,12 @@ def op_call(job):
 
 def main():
     faulthandler.enable()
+    try:
+        import resource
+        cap = int(os.environ.get('TSIM_MEM_CAP_MB', '1024')) << 20
+        resource.setrlimit(resource.RLIMIT_AS, (cap, cap))   # runaway memory becomes MemoryError, not OOM-kill
+    except (ImportError, ValueError, OSError):
+        pass
     job = json.loads(sys.stdin.read())
     wall = job.get('wall_limit')
     if wall:
